@@ -1,93 +1,13 @@
 //go:build verif
 // +build verif
 
-// Add-only hook for property C08 (validator statistics).  No behaviour: it lets the
-// harness run the unexported end-of-block code of package staking UNMODIFIED on a
-// state the harness has built: the take-effect handlers of the staking transactions
-// (teCreate, teUpdate, teDeposit, teWithdraw, teChangeStatus, teDelegationAdd,
-// teDelegationSub, teNoop), the penalty code (doPenalize / takePenalty,
-// inactivitySlashing, recoverFromExpiredExpelling) and the rewards code
-// (rewardsToPool, distributeRewards, settleValidatorRewards).
+// Add-only hooks for property C08 (validator statistics).  No behaviour.  This file only
+// holds the registry; every unexported function of package staking that the harness runs
+// UNMODIFIED has its own file zz_verif_c08_<name>.go that registers one wrapper here.  A
+// tree in which the signature of such a function has changed still builds the harness
+// without that file (props/C08.py drops the files that do not compile and reports them);
+// the whole-block scenarios use the exported staking.EndBlock and need no hook at all.
 package staking
 
-import (
-	"math/big"
-
-	"github.com/youchainhq/go-youchain/common"
-	"github.com/youchainhq/go-youchain/core/state"
-	"github.com/youchainhq/go-youchain/core/types"
-	"github.com/youchainhq/go-youchain/local"
-	"github.com/youchainhq/go-youchain/params"
-	"github.com/youchainhq/go-youchain/rlp"
-)
-
-func verifC08Header(cfg *params.YouParams, height uint64, coinbase common.Address, gasRewards *big.Int) *types.Header {
-	if gasRewards == nil {
-		gasRewards = new(big.Int)
-	}
-	return &types.Header{Number: new(big.Int).SetUint64(height), CurrVersion: cfg.Version, Coinbase: coinbase,
-		GasRewards: new(big.Int).Set(gasRewards), Subsidy: new(big.Int)}
-}
-
-func verifC08Ctx(st *state.StateDB, cfg *params.YouParams, h *types.Header) *context {
-	return &context{config: cfg, db: st, header: h, receipt: &types.Receipt{}, recorder: local.FakeRecorder()}
-}
-
-// VerifC08TakeEffect runs the take-effect handler registered for action on payload, as takeEffectEntry does.
-func VerifC08TakeEffect(st *state.StateDB, cfg *params.YouParams, from common.Address, action ActionType, payload []byte, height, nonce uint64) error {
-	to := params.StakingModuleAddress
-	msg := types.NewMessage(from, &to, nonce, new(big.Int), 0, new(big.Int), nil, false)
-	ctx := &messageContext{
-		Msg:     msg,
-		State:   st,
-		Cfg:     cfg,
-		Header:  verifC08Header(cfg, height, common.Address{}, nil),
-		Receipt: &types.Receipt{},
-	}
-	return getTeHandler(action)(ctx, payload)
-}
-
-// VerifC08DelegationSub runs teDelegationSub.
-func VerifC08DelegationSub(st *state.StateDB, cfg *params.YouParams, from, validator common.Address, amount *big.Int, height uint64) error {
-	payload, err := rlp.EncodeToBytes(&TxDelegation{Validator: validator, Value: new(big.Int).Set(amount)})
-	if err != nil {
-		return err
-	}
-	return VerifC08TakeEffect(st, cfg, from, DelegationSub, payload, height, 0)
-}
-
-// VerifC08Penalize runs doPenalize (takePenalty inside) on the stored record of validator; false = no such validator.
-func VerifC08Penalize(st *state.StateDB, cfg *params.YouParams, typ string, validator common.Address, amount *big.Int, height uint64) bool {
-	val := st.GetValidatorByMainAddr(validator)
-	if val == nil {
-		return false
-	}
-	doPenalize(cfg, typ, st, verifC08Header(cfg, height, common.Address{}, nil), val, new(big.Int).Set(amount), height)
-	return true
-}
-
-// VerifC08Inactivity runs slashingAndRecoveringYouV5 (inactivitySlashing / recoverFromExpiredExpelling over GetValidatorsForUpdate).
-func VerifC08Inactivity(st *state.StateDB, cfg *params.YouParams, height uint64) {
-	slashingAndRecoveringYouV5(verifC08Ctx(st, cfg, verifC08Header(cfg, height, common.Address{}, nil)))
-}
-
-// VerifC08RewardsToPool runs rewardsToPool with the given proposer and gas rewards.
-func VerifC08RewardsToPool(st *state.StateDB, cfg *params.YouParams, proposer common.Address, gasRewards *big.Int, height uint64) {
-	rewardsToPool(verifC08Ctx(st, cfg, verifC08Header(cfg, height, proposer, gasRewards)))
-}
-
-// VerifC08DistributeRewards runs Staking.distributeRewards (settleValidatorRewards inside).
-func VerifC08DistributeRewards(st *state.StateDB, cfg *params.YouParams, height uint64) error {
-	_, err := (&Staking{}).distributeRewards(verifC08Ctx(st, cfg, verifC08Header(cfg, height, common.Address{}, nil)))
-	return err
-}
-
-// VerifC08Settle runs settleValidatorRewards on the stored record of validator.
-func VerifC08Settle(st *state.StateDB, cfg *params.YouParams, validator common.Address, height uint64) bool {
-	val := st.GetValidatorByMainAddr(validator)
-	if val == nil {
-		return false
-	}
-	settleValidatorRewards(verifC08Ctx(st, cfg, verifC08Header(cfg, height, common.Address{}, nil)), val, height)
-	return true
-}
+// VerifC08 maps a hook name to its wrapper (a func value; the harness asserts the type).
+var VerifC08 = map[string]interface{}{}
